@@ -20,7 +20,9 @@ from ..translate import c09_schema as tr
 
 PID = "C09"
 ALLOWED_AXIOMS = set()
-EXTRA_TARGETS = ["Model/C09Check.vo", "Model/SchemaTrans.vo"]
+EXTRA_TARGETS = ["Model/C09Check.vo", "Model/SchemaTrans.vo", "Model/GeomInit.vo", "Model/SchemaExtras.vo"]
+REQ_INIT = ["QV.Gen.MolGeomInit", "QV.Model.GeomInit"]
+REQ_EXTRAS = ["QV.Gen.SchemaExtras", "QV.Model.SchemaExtras"]
 REQ = ["QV.Common.Outcome", "QV.Common.JsonS", "QV.Model.QCSchema", "QV.Gen.Schemas", "QV.Gen.FieldTypes",
        "QV.Gen.ToSchemaGen", "QV.Model.SchemaMol", "QV.Model.C09Check"]
 REQ_TRANS = ["QV.Common.Outcome", "QV.Model.MolRec", "QV.Gen.ToSchemaGen", "QV.Gen.SchemaKeys", "QV.Model.SchemaTrans"]
@@ -50,13 +52,91 @@ def models():
     return {m.__name__: m for m in qm.qcschema_models()}
 
 
-def build(recipe):
+ND = "__nd__"
+
+
+def nd(dtype, data, shape=None, order="C"):
+    """JSON-able description of an ndarray handed to a model: dtype string (numpy syntax, '>' = big-endian, 'O' = object),
+    flat data, shape, memory order ('C', 'F' = Fortran-ordered, 'S' = a strided every-other-element view)"""
+    return {ND: {"dtype": dtype, "data": list(data), "shape": list(shape) if shape is not None else [len(data)], "order": order}}
+
+
+def _nd_array(spec):
+    a = np.array(spec["data"], dtype=np.dtype(spec["dtype"])).reshape(spec["shape"])
+    if spec.get("order") == "F":
+        a = np.asfortranarray(a)
+    elif spec.get("order") == "S":
+        wide = np.zeros(tuple(spec["shape"][:-1]) + (2 * spec["shape"][-1],), dtype=a.dtype)
+        wide[..., ::2] = a
+        a = wide[..., ::2]
+    return a
+
+
+def nd_specs(x):
+    if isinstance(x, dict):
+        if set(x) == {ND}:
+            yield x[ND]
+        else:
+            for v in x.values():
+                yield from nd_specs(v)
+    elif isinstance(x, list):
+        for v in x:
+            yield from nd_specs(v)
+
+
+def decode(x):
+    """recipe value -> what is handed to the implementation (ndarray descriptions become ndarrays)"""
+    if isinstance(x, dict):
+        if set(x) == {ND}:
+            return _nd_array(x[ND])
+        return {k: decode(v) for k, v in x.items()}
+    if isinstance(x, list):
+        return [decode(v) for v in x]
+    return copy.deepcopy(x)
+
+
+def derive(mol, base, op):
+    """one public way of getting a further validated Molecule from a validated one"""
+    k = op["op"]
+    if k == "scramble":
+        out, _ = mol.scramble(do_shift=op.get("shift", False), do_rotate=op.get("rotate", False), do_resort=op.get("resort", False),
+                              do_mirror=bool(op.get("mirror", False)), do_test=False, verbose=0)
+        return out
+    if k == "align":
+        out, _ = mol.align(base, atoms_map=bool(op.get("atoms_map", True)), mols_align=bool(op.get("mols_align", True)),
+                           run_mirror=bool(op.get("mirror", False)), verbose=0)
+        return out
+    if k == "orient":
+        return mol.orient_molecule()
+    if k == "rebuild":
+        return type(mol)(**mol.dict())
+    if k == "copy":
+        return mol.copy()
+    if k == "payload":
+        # a dictionary that says validated=True, with coordinates that are not multiples of 1e-8
+        d = mol.dict()
+        d["geometry"] = np.asarray(d["geometry"], dtype=float).reshape(-1) + np.asarray(op["noise"], dtype=float)
+        return type(mol)(**d)
+    raise ValueError(k)
+
+
+def build(recipe, probs=None):
     import qcelemental.models as qm
     cls = getattr(qm, recipe["model"])
     if "from_data" in recipe:
-        return cls.from_data(recipe["from_data"], dtype=recipe.get("dtype", "psi4"))
-    kw = copy.deepcopy(recipe["kwargs"])
-    return cls(**kw)
+        inst = cls.from_data(recipe["from_data"], dtype=recipe.get("dtype", "psi4"))
+    else:
+        kw = decode(recipe["kwargs"])
+        inst = cls(**kw)
+        if probs is not None and not _eq(kw, decode(recipe["kwargs"])):
+            # the arrays / lists / dictionaries the caller handed over are the caller's
+            chg = [k for k, v in decode(recipe["kwargs"]).items() if not _eq(kw.get(k), v)]
+            probs.append({"what": f"{recipe['model']}(...) altered the values it was given (keys {chg})",
+                          "observed": {k: repr(kw.get(k))[:200] for k in chg[:3]}})
+    base = inst
+    for op in recipe.get("derive") or []:
+        inst = derive(inst, base, op)
+    return inst
 
 
 def emitted(inst):
@@ -158,12 +238,17 @@ def molecule_oracle(mol, recipe=None):
     if not bool(mol.validated):
         return bad, None  # the round-trip half of the property is about validated molecules (as in C04)
     kw = (recipe or {}).get("kwargs")
-    if kw is not None:
-        bad += input_kept(kw, mol)
+    if kw is not None and not (recipe or {}).get("derive"):
+        bad += input_kept(decode(kw), mol)
     d = mol.dict()
     m2 = Molecule(**d)
-    if not (m2 == mol) or m2.get_hash() != mol.get_hash():
-        bad.append(("Molecule(**mol.dict()) differs from mol", {"hash": mol.get_hash(), "hash_rebuilt": m2.get_hash()}))
+    if not (m2 == mol) or not (mol == d) or m2.get_hash() != mol.get_hash():
+        bad.append(("Molecule(**mol.dict()) differs from mol", {"hash": mol.get_hash(), "hash_rebuilt": m2.get_hash(),
+                                                                 "geometry": np.asarray(mol.geometry).reshape(-1).tolist()}))
+    m5 = Molecule(**mol.dict(encoding="json"))
+    if not (m5 == mol) or m5.get_hash() != mol.get_hash():
+        bad.append(("Molecule(**mol.dict(encoding='json')) differs from mol", {"hash": mol.get_hash(), "hash_rebuilt": m5.get_hash(),
+                                                                                "geometry": np.asarray(mol.geometry).reshape(-1).tolist()}))
     dj = json.loads(emitted(mol))
     m3 = Molecule(**dj)
     if m3.get_hash() != mol.get_hash():
@@ -192,6 +277,22 @@ def molecule_oracle(mol, recipe=None):
         more, core = schema_trip(m0, "molrec of the instance")
         bad += more
     return bad, core
+
+
+def unvalidated_oracle(mol):
+    """a Molecule that did not go through the validating constructor (validate=False, or a payload that says validated=True):
+    rebuilt from its own dictionary in the same way, it is equal to the original with the same hash"""
+    from qcelemental.models import Molecule
+    bad = []
+    h = mol.get_hash()
+    for how, d in (("mol.dict()", mol.dict()), ("mol.dict(encoding='json')", mol.dict(encoding="json")), ("json.loads(mol.json())", json.loads(emitted(mol)))):
+        m2 = Molecule(validate=False, **d)
+        if m2.get_hash() != h or not (m2 == mol):
+            bad.append((f"Molecule(validate=False, **{how}) differs from the unvalidated mol", {"hash": h, "hash_rebuilt": m2.get_hash()}))
+        if not _same_field("geometry", np.asarray(m2.geometry, dtype=float).reshape(-1), np.asarray(mol.geometry, dtype=float).reshape(-1)):
+            bad.append((f"Molecule(validate=False, **{how}) does not hold the geometry of the unvalidated mol",
+                        {"held": np.asarray(mol.geometry).reshape(-1).tolist(), "rebuilt": np.asarray(m2.geometry).reshape(-1).tolist()}))
+    return bad
 
 
 FIELD_MAP = [("symbols", "elem"), ("atomic_numbers", "elez"), ("mass_numbers", "elea"), ("masses", "mass"), ("real", "real"),
@@ -419,14 +520,14 @@ class Refused(Exception):
 
 
 def _oracle(recipe):
+    probs = []
     try:
-        inst = build(recipe)
+        inst = build(recipe, probs)
     except Exception as e:
         raise Refused(f"{type(e).__name__}: {e}") from e
     name = recipe["model"]
     text = emitted(inst)
     doc = json.loads(text)
-    probs = []
     errs = schema_errors(name, doc)
     if errs:
         probs.append({"what": f"JSON emitted for a valid {name} fails {name}.schema(): " +
@@ -436,8 +537,10 @@ def _oracle(recipe):
     if name == "Molecule":
         try:
             bad, core = [], None
-            if (recipe.get("kwargs") or {}).get("validate") is not False:   # went through the validating constructor
+            if (recipe.get("kwargs") or {}).get("validate") is not False and bool(inst.validated):   # went through the validating constructor
                 bad, core = molecule_oracle(inst, recipe)
+            else:
+                bad = unvalidated_oracle(inst)
             info["core"] = core
             if "from_data" in recipe and recipe.get("angstrom_coords") is not None:
                 bad = bad + angstrom_oracle(recipe["from_data"], recipe["angstrom_coords"])
@@ -632,7 +735,58 @@ def gen_molecule_kwargs(rng, nmax=6):
         kw["id"] = rng.choice([rng.randint(1, 999), rword(rng, 6)])
     if rng.random() < 0.1:
         kw["orient"] = True
+    if rng.random() < 0.15:
+        kw["geometry_noise"] = rng.choice([8, 9, 10, 11, 12, 13, 13])      # a finer (public) coordinate truncation
+    if rng.random() < 0.08:
+        # far from the origin
+        off = [rng.choice([0.0, 1.0e3, -2.5e4, 1.0e5, rng.uniform(-1e4, 1e4)]) for _ in range(3)]
+        flat = [c for p_ in kw["geometry"] for c in p_] if isinstance(kw["geometry"][0], list) else list(kw["geometry"])
+        kw["geometry"] = [c + off[i % 3] for i, c in enumerate(flat)]
     return kw
+
+
+def rot_matrix(rng):
+    """a proper rotation matrix from a random unit quaternion (or a plain rotation about z)"""
+    import math
+    if rng.random() < 0.3:
+        th = rng.choice([0.3, math.pi / 2, rng.uniform(-3, 3)])
+        return [[math.cos(th), -math.sin(th), 0.0], [math.sin(th), math.cos(th), 0.0], [0.0, 0.0, 1.0]]
+    q = [rng.gauss(0, 1) for _ in range(4)]
+    n = math.sqrt(sum(x * x for x in q)) or 1.0
+    w, x, y, z = (c / n for c in q)
+    return [[1 - 2 * (y * y + z * z), 2 * (x * y - z * w), 2 * (x * z + y * w)],
+            [2 * (x * y + z * w), 1 - 2 * (x * x + z * z), 2 * (y * z - x * w)],
+            [2 * (x * z - y * w), 2 * (y * z + x * w), 1 - 2 * (x * x + y * y)]]
+
+
+def gen_derive(rng, nat, single_fragment):
+    """public calls that hand back a further validated Molecule (scramble/align build theirs with a finer coordinate truncation),
+    all with explicit, reproducible arguments"""
+    ops = []
+    sc = {"op": "scramble"}
+    r = rng.random()
+    if r < 0.75:
+        sc["shift"] = [rng.choice([rng.uniform(-3, 3), round(rng.uniform(-3, 3), rng.choice([2, 9, 11, 13])), 0.3141592653589]) for _ in range(3)]
+    if rng.random() < 0.5 or "shift" not in sc:
+        sc["rotate"] = rot_matrix(rng)
+    if single_fragment and nat > 1 and rng.random() < 0.3:
+        perm = list(range(nat))
+        rng.shuffle(perm)
+        sc["resort"] = perm
+    if rng.random() < 0.1:
+        sc["mirror"] = True
+    ops.append(sc)
+    r = rng.random()
+    if r < 0.35:
+        # (run_mirror / atoms_map=False need the optional networkx, which is not installed here)
+        ops.append({"op": "align", "atoms_map": True, "mols_align": "resort" not in sc and not sc.get("mirror"), "mirror": False})
+    elif r < 0.45:
+        ops.append({"op": "rebuild"})
+    elif r < 0.55:
+        ops.append({"op": "copy"})
+    elif r < 0.62:
+        ops.append({"op": "orient"})
+    return ops
 
 
 def gen_molecule_unvalidated(rng):
@@ -667,6 +821,8 @@ def gen_molecule_unvalidated(rng):
         kw["extras"] = rdict(rng, 1.0)
     if rng.random() < 0.2:
         kw["validated"] = False
+    if rng.random() < 0.3:
+        kw["geometry"] = [c + rng.uniform(-1e-3, 1e-3) for c in kw["geometry"]]      # coordinates that are not multiples of 1e-8
     return kw
 
 
@@ -766,6 +922,80 @@ def molrec_oracle(arrays):
         except Exception as e:
             bad, core = [(f"round trip of a molrec accepted by from_arrays raised {type(e).__name__}: {e}"[:300], None)], None
     return [{"what": w, "observed": o} for w, o in bad], core
+
+
+def gen_exports(rng):
+    """a sequence of exports (dtype, np_out, copy) from one live record"""
+    n = rng.randint(2, 5)
+    seq = [[rng.choice([1, 2, 2, "psi4"]), rng.random() < 0.5, rng.random() < 0.5] for _ in range(n)]
+    if rng.random() < 0.5:
+        seq[rng.randrange(n - 1)][2] = False         # at least one copy=False export that is not the last
+    return seq
+
+
+def _expected_bohr(m_ref, arrays):
+    g0 = np.asarray(m_ref["geom"], dtype=float).reshape(-1)
+    if m_ref["units"] == "Bohr":
+        return [g0], True
+    if "input_units_to_au" in m_ref:
+        return [g0 * m_ref["input_units_to_au"]], True
+    return [g0 / b for b in BOHR2ANG], False
+
+
+def molrec_history_oracle(arrays, exports):
+    """several exports from ONE live molrec (copy=False and copy=True interleaved): each must be the export a fresh record gives
+    with the same options, its geometry must be the ORIGINAL coordinates in Bohr, must read back as such, and answers handed out
+    earlier must not change afterwards"""
+    import contextlib
+    import io
+    from qcelemental.molparse import from_arrays, from_schema, to_schema
+    with contextlib.redirect_stdout(io.StringIO()):
+        try:
+            live = from_arrays(speclabel=False, verbose=0, **copy.deepcopy(arrays))
+        except Exception as e:
+            raise Refused(f"{type(e).__name__}: {e}") from e
+        fresh = lambda: from_arrays(speclabel=False, verbose=0, **copy.deepcopy(arrays))
+        want_g, exact = _expected_bohr(fresh(), arrays)
+        bad, handed = [], []
+        for i, (dt, np_out, cp) in enumerate(list(exports) + [[2, False, True]]):
+            what = f"export #{i + 1} from one live {arrays.get('units')} molrec after {[list(e) for e in exports[:i]]}: to_schema(m, {dt!r}, np_out={np_out}, copy={cp})"
+            try:
+                got = to_schema(live, dtype=dt, np_out=np_out, copy=cp)
+            except Exception as e:
+                bad.append((what + f" raised {type(e).__name__}: {e}"[:200], None))
+                break
+            want = to_schema(fresh(), dtype=dt, np_out=np_out, copy=cp)
+            a, b = ({k: v for k, v in x.items() if k != "provenance"} for x in (got, want))
+            if dt == 1:
+                a["molecule"], b["molecule"] = ({k: v for k, v in x["molecule"].items() if k != "provenance"} for x in (got, want))
+            ms = got["molecule"] if dt == 1 else got
+            g = np.asarray(ms["geom" if dt == "psi4" else "geometry"], dtype=float).reshape(-1)
+            okg = bool(np.array_equal(g, want_g[0])) if exact else any(np.allclose(g, w, rtol=1e-8, atol=1e-10) for w in want_g)
+            if not okg:
+                bad.append((what + " does not give the record's coordinates in Bohr", {"exported": g.tolist(), "bohr": want_g[0].tolist()}))
+                break
+            if not _eq(a, b):
+                diff = [k for k in sorted(set(a) | set(b)) if not (k in a and k in b and _eq(a[k], b[k]))]
+                bad.append((what + f" differs from the same export of a fresh record in {diff}", {k: [repr(a.get(k))[:200], repr(b.get(k))[:200]] for k in diff[:3]}))
+                break
+            snap = copy.deepcopy(got)
+            if dt != "psi4":
+                back = from_schema(got)
+                if back["units"] != "Bohr" or not np.array_equal(np.asarray(back["geom"], dtype=float).reshape(-1), g):
+                    bad.append((what + " does not read back (from_schema) as the exported Bohr geometry", None))
+                    break
+                again = from_schema(got)
+                diff = [k for k in sorted(set(back) | set(again)) if k != "provenance" and not (k in back and k in again and _same_field(k, back[k], again[k]))]
+                if diff:
+                    bad.append((what + f": reading the same dictionary twice (from_schema) gives different records in {diff}", None))
+                    break
+            handed.append((what, got, snap))
+        if not bad:
+            for what, got, snap in handed:
+                if not _eq(got, snap):
+                    bad.append(("the dictionary handed out by " + what + " changed during later exports", None))
+                    break
+    return [{"what": w, "observed": o} for w, o in bad]
 
 
 def gen_provenance_kwargs(rng):
@@ -984,11 +1214,157 @@ def gen_result_kwargs(rng):
     return kw
 
 
+# ------------------------------------------------------------------------------------------------
+# ndarray inputs of non-default dtype / byte order / memory order for every array-typed field
+
+FREE_OWNERS = {"AtomicResultProperties", "WavefunctionProperties", "AtomicResult"}     # array fields whose entries may be any number
+DT_FLOAT = ["float64", "float32", "float16", ">f8", ">f4"]
+DT_INT = ["int8", "int16", "int32", "int64", ">i2", ">i8", "uint8", "uint16", "uint32", "uint64"]
+_RANGE = {"int8": (-128, 127), "int16": (-2 ** 15, 2 ** 15 - 1), "int32": (-2 ** 31, 2 ** 31 - 1), "int64": (-2 ** 62, 2 ** 62), ">i2": (-2 ** 15, 2 ** 15 - 1),
+          ">i8": (-2 ** 62, 2 ** 62), "uint8": (0, 255), "uint16": (0, 2 ** 16 - 1), "uint32": (0, 2 ** 32 - 1), "uint64": (0, 2 ** 62)}
+
+
+def array_sites(cls, kw, path=()):
+    """(path, kind of the field's dtype, owner model, alias) of every list value sitting at an array-typed field, by the models' own
+    field tables"""
+    import pydantic.v1 as pyd
+    from qcelemental.models.types import TypedArray
+
+    def isarr(t):
+        return isinstance(t, type) and issubclass(t, TypedArray)
+
+    def ismod(t):
+        return isinstance(t, type) and issubclass(t, pyd.BaseModel)
+
+    def kind(t):
+        return np.dtype(t._dtype).kind if t._dtype is not str else "U"
+    by_alias = {f.alias: f for f in cls.__fields__.values()}
+    by_alias.update({n: f for n, f in cls.__fields__.items() if n not in by_alias})
+    for key, val in kw.items():
+        f = by_alias.get(key)
+        if f is None or val is None:
+            continue
+        cands = [f] + list(f.sub_fields or [])
+        for c in cands:
+            if isarr(c.type_) and isinstance(val, list) and val:
+                if c.shape == 1:
+                    yield path + (key,), kind(c.type_), cls.__name__, f.alias
+                elif c.shape == 2 and all(isinstance(x, list) and x for x in val):       # List[Array]: each item
+                    for i in range(len(val)):
+                        yield path + (key, i), kind(c.type_), cls.__name__, f.alias
+                break
+            if ismod(c.type_) and c.shape == 1 and isinstance(val, dict) and ND not in val:
+                yield from array_sites(c.type_, val, path + (key,))
+                break
+
+
+def _flat(v):
+    if v and isinstance(v[0], list):
+        return [x for row in v for x in row], [len(v), len(v[0])]
+    return list(v), [len(v)]
+
+
+def dtype_choices(kind, flat, allow_bytes):
+    """the dtypes that can hold these values without changing what they mean"""
+    nums = all(isinstance(x, (int, float)) for x in flat)
+    out = []
+    if kind == "U":
+        if all(isinstance(x, str) for x in flat):
+            out = ["<U8", ">U8", "O"] + (["S8"] if allow_bytes and all(x.isascii() for x in flat) else [])
+        return out
+    if not nums:
+        return out
+    integral = all(float(x).is_integer() for x in flat)
+    if kind == "f":
+        out += DT_FLOAT if all(abs(float(x)) < 6e4 for x in flat) else ["float64", ">f8"]
+    elif integral:
+        out += ["float64", "float32"]
+    if integral:
+        lo, hi = min(int(x) for x in flat), max(int(x) for x in flat)
+        out += [d for d in DT_INT if _RANGE[d][0] <= lo and hi <= _RANGE[d][1]]
+        if lo >= 0 and hi <= 1:
+            out.append("bool")
+    return out
+
+
+def retype_arrays(rng, recipe, cover, p=0.45):
+    """hand some of the recipe's array-typed fields over as ndarrays of another dtype (narrow / unsigned integers, booleans, half and
+    single precision, big-endian, object), Fortran-ordered or strided; the (field, dtype) pairs seen least so far are preferred"""
+    import qcelemental.models as qm
+    if "kwargs" not in recipe:
+        return recipe
+    kw = recipe["kwargs"]
+    try:
+        sites = list(array_sites(getattr(qm, recipe["model"]), kw))
+    except Exception:
+        return recipe
+    for path, kind, owner, alias in sites:
+        if rng.random() > p:
+            continue
+        holder = kw
+        for k_ in path[:-1]:
+            holder = holder[k_]
+        val = holder[path[-1]]
+        try:
+            flat, shape = _flat(val)
+        except Exception:
+            continue
+        if any(isinstance(x, (list, dict)) for x in flat):
+            continue
+        mol_holder = kw
+        for k_ in path[:-1]:
+            if isinstance(mol_holder, dict) and isinstance(k_, str) and k_ != "fragments":
+                mol_holder = mol_holder[k_]
+        free = owner in FREE_OWNERS and kind == "f" and all(isinstance(x, (int, float)) for x in flat)
+        choices = dtype_choices(kind, flat, allow_bytes=(owner == "Molecule" and isinstance(mol_holder, dict) and mol_holder.get("validate") is False))
+        if free:
+            choices = sorted(set(choices) | {"bool", "int8", "uint8", "int64"})
+        if alias == "fragments":
+            choices = [d for d in choices if d in _RANGE]       # index lists: a boolean or float array there means something else to numpy
+        if not choices:
+            continue
+        low = min(cover.get((owner, alias, d), 0) for d in choices)
+        dt = rng.choice([d for d in choices if cover.get((owner, alias, d), 0) == low])
+        if free and dt in ("bool", "int8", "uint8", "int64") and dt not in dtype_choices(kind, flat, False):
+            flat = [rng.randint(0, 1) for _ in flat]                    # e.g. an occupied/virtual mask, a 0/1 selection
+        if dt == "bool":
+            flat = [bool(x) for x in flat]
+        elif dt == "O" or dt[-2] == "U" or dt[0] == "S":
+            pass
+        elif dt in _RANGE:
+            flat = [int(x) for x in flat]
+        else:
+            flat = [float(x) for x in flat]
+        if len(shape) == 1 and (alias == "geometry" or alias.endswith("gradient")) and len(flat) % 3 == 0 and rng.random() < 0.5:
+            shape = [len(flat) // 3, 3]
+        order = "C"
+        r = rng.random()
+        if len(shape) == 2 and r < 0.5:
+            order = "F"
+        elif r > 0.85 and dt != "O":
+            order = "S"
+        holder[path[-1]] = nd(dt, flat, shape, order)
+        cover[(owner, alias, dt)] = cover.get((owner, alias, dt), 0) + 1
+        cover[("order", order)] = cover.get(("order", order), 0) + 1
+    return recipe
+
+
+def gen_payload_noise(rng, n):
+    return [rng.choice([0.0, 3e-10, -4e-10, 1e-9, rng.uniform(-4e-9, 4e-9), 1.2345e-12]) for _ in range(n)]
+
+
 def gen_recipe(rng, which):
     if which == "Molecule":
         r = rng.random()
         if r < 0.55:
-            return {"model": "Molecule", "kwargs": gen_molecule_kwargs(rng)}
+            kw = gen_molecule_kwargs(rng)
+            rc = {"model": "Molecule", "kwargs": kw}
+            if rng.random() < 0.3:
+                nat = len(kw["symbols"])
+                rc["derive"] = gen_derive(rng, nat, "fragments" not in kw)
+            elif rng.random() < 0.08:
+                rc["derive"] = [{"op": "payload", "noise": gen_payload_noise(rng, 3 * len(kw["symbols"]))}]
+            return rc
         if r < 0.75:
             return {"model": "Molecule", "kwargs": gen_molecule_unvalidated(rng)}
         text, coords = gen_molecule_text(rng)
@@ -1069,6 +1445,7 @@ MOLREC_CORPUS = [
     {"elem": ["O", "H", "H"], "geom": [0, 0, 0, 0, 0, 1.8, 0, 1.7, -0.5], "mass": [15.999, 1.008, 1.008], "units": "Bohr"},
     {"elem": ["O", "H", "H"], "geom": [0, 0, 0, 0, 0, 0.96, 0, 0.93, -0.3], "mass": [15.999, 2.0141, 1.008], "units": "Angstrom"},
     {"elem": ["C", "H"], "geom": [0, 0, 0, 0, 0, 2.0], "elea": [13, 2], "units": "Bohr"},
+    {"elem": ["He", "H"], "geom": [0, 0, 0, 0, 0, 2.5], "units": "Bohr", "molecular_charge": 1, "name": "helium hydride", "comment": "a comment; with (punctuation)"},
     {"elem": ["He", "Ne"], "geom": [0, 0, 0, 0, 0, 5.0], "mass": [4.0026, 20.18], "real": [True, False], "fragment_separators": [1],
      "units": "Bohr"},
 ]
@@ -1095,6 +1472,18 @@ CORPUS = [
                                      "fragment_multiplicities": [2, 2], "molecular_multiplicity": 1}},
     {"model": "Molecule", "kwargs": {"symbols": ["O", "O"], "geometry": [0, 0, 0, 0, 0, 8.0], "fragments": [[0], [1]],
                                      "fragment_multiplicities": [3, 3], "molecular_multiplicity": 3}},
+    # validated molecules handed back by scramble()/align() (stored with a finer coordinate truncation), a finer geometry_noise
+    {"model": "Molecule", "kwargs": {"symbols": ["O", "H", "H"], "geometry": [0, 0, -0.125, 0, -1.5, 1.0, 0, 1.5, 1.0]},
+     "derive": [{"op": "scramble", "shift": [0.1234567890123, -0.2, 0.3000000000007]}]},
+    {"model": "Molecule", "kwargs": {"symbols": ["O", "H", "H"], "geometry": [0, 0, -0.125, 0, -1.5, 1.0, 0, 1.5, 1.0]},
+     "derive": [{"op": "scramble", "shift": [0.5, 0.25, -1.0], "rotate": [[0.8, -0.6, 0.0], [0.6, 0.8, 0.0], [0.0, 0.0, 1.0]]},
+                {"op": "align", "atoms_map": True, "mols_align": True}]},
+    {"model": "Molecule", "kwargs": {"symbols": ["He", "Ne"], "geometry": [0, 0, 0, 0.1234567890123, 0, 3.0], "geometry_noise": 12}},
+    # ndarrays of other dtypes / byte order / memory order in array-typed fields
+    {"model": "Molecule", "kwargs": {"symbols": nd(">U8", ["He", "ne"]), "geometry": nd("float32", [0, 0, 0, 0, 0, 3], [2, 3], "F"),
+                                     "real": nd("int8", [1, 0])}},
+    {"model": "AtomicResultProperties", "kwargs": {"calcinfo_natom": 1, "scf_dipole_moment": nd("bool", [True, False, True]),
+                                                   "return_gradient": nd("uint8", [0, 1, 2], [1, 3], "F")}},
     {"model": "Provenance", "kwargs": {"creator": "x"}},
     {"model": "BasisSet", "kwargs": _basis([SHELL0, {"angular_momentum": [0, 1], "harmonic_type": "cartesian", "exponents": ["0.5", 3.0],
                                                       "coefficients": [[1, 2], [3, 4]]}], [ECP0])},
@@ -1459,6 +1848,8 @@ def trans_cases(ctx, corr):
     from qcelemental.molparse import from_arrays, to_schema
     rng = ctx.rng
     tterms, tmeta, dterms, dmeta = [], [], [], []
+    xterms, xmeta = _STATE.setdefault("xterms", []), _STATE.setdefault("xmeta", [])
+    del xterms[:], xmeta[:]
     n = 700 if ctx.thorough else 130
     pool = [dict(a) for a in MOLREC_CORPUS if a.get("units") == "Bohr"]
     for i in range(n):
@@ -1486,6 +1877,23 @@ def trans_cases(ctx, corr):
             except Exception as e:
                 exported = ("Err", type(e).__name__)
             back = impl_from_schema(s) if exported[0] == "Ok" else ("Err", "ValidationError")
+            if exported[0] == "Ok" and back[0] == "Ok":
+                # name / comment through the translation (Model/SchemaExtras.v)
+                try:
+                    from qcelemental.molparse import from_schema as _fs
+                    from qcelemental.molparse.to_string import formula_generator
+                    ms_ = s["molecule"] if v == 1 else s
+                    with contextlib.redirect_stdout(io.StringIO()):
+                        raw_back = _fs(copy.deepcopy(s))
+                    ex = lambda d_: "(Build_extras %s %s)" % (_some(d_.get("name"), cstr), _some(d_.get("comment"), cstr))
+                    vals = [m0.get("name"), m0.get("comment"), ms_.get("name"), ms_.get("comment"), raw_back.get("name"), raw_back.get("comment")]
+                    if all(x is None or (isinstance(x, str) and x.isascii()) for x in vals):
+                        xterms.append(f"({ex(m0)}, {cstr(formula_generator(m0['elem']))}, {ex(ms_)}, {ex(raw_back)})")
+                        xmeta.append({"molrec": arrays, "dtype": v, "np_out": np_out})
+                        corr.count("extras")
+                        corr.hit("extras_" + ("named" if "name" in m0 else "unnamed") + ("_comment" if "comment" in m0 else ""))
+                except Exception as e:
+                    corr.errors.append(f"extras case could not be built: {type(e).__name__}: {e}"[:200])
             try:
                 tterms.append(f"({mterm}, {coqrun.cz(v)}, {cout(exported, cdoc)}, {cout(back, cmolrec)})")
             except ValueError:
@@ -1569,6 +1977,78 @@ def history_oracle(recipe, calls):
     return bad
 
 
+def geom_init_cases(rng, n):
+    """constructions Molecule(validate=..., **payload) over the validate argument, the payload's validated flag, the private
+    _geometry_prep flag and geometry_noise, with coordinates of 17 significant digits: what the implementation is seen to do to the
+    coordinates (kept / float_prep at which number of decimals) -> Gallina case of check_init, with its replay record"""
+    import contextlib
+    import io
+    from qcelemental.models import Molecule
+    from qcelemental.models.molecule import float_prep
+    out = []
+    with contextlib.redirect_stdout(io.StringIO()):
+        base = Molecule(symbols=["He", "Ne", "Ar"], geometry=[0, 0, 0, 0, 0, 3, 0, 4, 0]).dict()
+    for _ in range(n):
+        g = [c + rng.uniform(0.1, 0.9) * 1.0000000123456789 for c in [0.0, 0.0, 0.0, 0.0, 0.0, 3.0, 0.0, 4.0, 0.0]]
+        va = rng.choice([None, None, True, False])
+        vk = rng.choice([None, True, True, False])
+        gp = rng.random() < 0.25
+        nk = rng.choice([None, None, 5, 8, 9, 11, 13])
+        kw = {k: v for k, v in base.items() if k != "validated"}
+        kw["geometry"] = list(g)
+        if vk is not None:
+            kw["validated"] = vk
+        if gp:
+            kw["_geometry_prep"] = True
+        if nk is not None:
+            kw["geometry_noise"] = nk
+        if va is not None:
+            kw["validate"] = va
+        try:
+            with contextlib.redirect_stdout(io.StringIO()):
+                mol = Molecule(**copy.deepcopy(kw))
+        except Exception:
+            continue
+        stored = np.asarray(mol.geometry, dtype=float).reshape(-1)
+        given = np.asarray(g, dtype=float)
+        keep = bool(np.array_equal(stored, given))
+        match = [k for k in range(0, 15) if np.array_equal(stored, float_prep(given.copy(), k))]
+        if keep and not match:
+            seen = "GKeep"
+        elif len(match) == 1 and not keep:
+            seen = f"(GPrep {coqrun.cz(match[0])})"
+        else:
+            seen = None
+        meta = {"init": {k: v for k, v in kw.items() if k in ("geometry", "validated", "_geometry_prep", "geometry_noise", "validate")},
+                "seen": seen, "stored": stored.tolist(), "unexplained": not keep and not match}
+        term = None
+        if seen is not None:
+            term = "(false, %s, %s, %s, %s, %s)" % (copt(va, cbool), cbool(bool(vk)), cbool(gp), copt(nk, coqrun.cz), seen)
+        out.append((term, meta))
+    return out
+
+
+def geom_init_replay(case):
+    import contextlib
+    import io
+    from qcelemental.models import Molecule
+    from qcelemental.models.molecule import float_prep
+    with contextlib.redirect_stdout(io.StringIO()):
+        base = Molecule(symbols=["He", "Ne", "Ar"], geometry=[0, 0, 0, 0, 0, 3, 0, 4, 0]).dict()
+        kw = {k: v for k, v in base.items() if k != "validated"}
+        kw.update(copy.deepcopy(case["init"]))
+        mol = Molecule(**kw)
+    stored = np.asarray(mol.geometry, dtype=float).reshape(-1)
+    given = np.asarray(case["init"]["geometry"], dtype=float)
+    keep = bool(np.array_equal(stored, given))
+    match = [k for k in range(0, 15) if np.array_equal(stored, float_prep(given.copy(), k))]
+    if keep and not match:
+        return "GKeep", False
+    if len(match) == 1 and not keep:
+        return f"(GPrep {match[0]})", False
+    return None, not keep and not match
+
+
 def run_cases(tag, fn, terms, shard, ty, req=None):
     """eval_bad_indices, re-running (in smaller shards) the shards whose coqc was killed without any output:
     out-of-memory kills and timeouts on an overloaded machine are not verdicts."""
@@ -1600,10 +2080,11 @@ def correspond(ctx):
     per_model = 1000 if ctx.thorough else 160
     n_mut = 3 if ctx.thorough else 2
     recipes = [("corpus", r) for r in CORPUS]
+    cover = {}
     for name in tr.SIX:
         k = per_model * (3 if name == "Molecule" else 1)
         for _ in range(k):
-            recipes.append((name, gen_recipe(rng, name)))
+            recipes.append((name, retype_arrays(rng, gen_recipe(rng, name), cover)))
     inst_terms, inst_meta, json_terms, json_meta, split_terms, split_meta = [], [], [], [], [], []
     seen_docs = set()
     built = 0
@@ -1624,6 +2105,13 @@ def correspond(ctx):
         name = rc["model"]
         corr.count("instances:" + name)
         corr.hit("model_" + name)
+        for spec in nd_specs(rc.get("kwargs")):
+            corr.hit("nd_dtype_" + spec["dtype"])
+            corr.hit("nd_order_" + spec["order"])
+        for op in rc.get("derive") or []:
+            corr.hit("derive_" + op["op"])
+        if "geometry_noise" in (rc.get("kwargs") or {}):
+            corr.hit("geometry_noise_given")
         for p in probs:
             corr.failures.append({"stream": "instances", "case": {"recipe": rc}, "what": p["what"], "observed": p["observed"]})
         key = name + info["text"]
@@ -1729,6 +2217,30 @@ def correspond(ctx):
             split_terms.append(f"({cn(nat)}, {clist(seps, cn)}, {clist(frs, lambda f: clist(f, cn))}, {clist(back, cn)})")
             split_meta.append({"model": "molrec", "arrays": arrays})
             corr.count("split")
+    # several exports from one live record, copy=False and copy=True interleaved, each judged against the original values
+    hist_corpus = [({"elem": ["O", "H", "H"], "geom": [0, 0, 0, 0, 0.757, 0.587, 0, -0.757, 0.587], "units": "Angstrom"}, [[2, True, False], [1, False, True]]),
+                   ({"elem": ["He", "Ne"], "geom": [0.5, 0, 0, 0, 0, 3.0], "units": "Angstrom", "input_units_to_au": IU_BASE * 1.012}, [[1, False, False], [2, True, False], [2, False, True]]),
+                   ({"elem": ["He", "Ne"], "geom": [0.5, 0, 0, 0, 0, 3.0], "units": "Bohr"}, [["psi4", True, False], [2, True, False], [1, False, True]])]
+    for i in range((900 if ctx.thorough else 160) + len(hist_corpus)):
+        if i < len(hist_corpus):
+            arrays, exports = hist_corpus[i]
+        else:
+            arrays, exports = gen_molrec_arrays(rng), gen_exports(rng)
+            if arrays["units"] == "Bohr" and rng.random() < 0.5:
+                arrays["units"] = "Angstrom"
+        try:
+            probs = molrec_history_oracle(arrays, exports)
+        except Refused:
+            corr.hit("molrec_history_refused")
+            continue
+        except Exception as e:
+            probs = [{"what": f"exports from one live molrec raised {type(e).__name__}: {e}"[:300], "observed": None}]
+        corr.count("molrec-history")
+        corr.hit("molrec_history_" + arrays["units"] + ("_own_factor" if "input_units_to_au" in arrays else ""))
+        if any(not e_[2] for e_ in exports[:-1]):
+            corr.hit("molrec_history_copy_false_then_more")
+        for p_ in probs:
+            corr.failures.append({"stream": "molrec-history", "case": {"molrec": arrays, "exports": exports}, "what": p_["what"], "observed": p_["observed"]})
     # every ndarray field given a bare scalar: fields with a shape-guarding validator must refuse it; for the others the
     # emitted scalar fails the schema (known finding) - which is how the generated guard table is tied to the code
     if _STATE.get("translate_ok"):
@@ -1745,6 +2257,34 @@ def correspond(ctx):
             corr.hit("scalar_accepted_guarded" if g_ else "scalar_accepted_unguarded")
             for p_ in probs:
                 corr.failures.append({"stream": "scalar-probe", "case": {"recipe": rc}, "what": p_["what"], "observed": p_["observed"]})
+    # every array-typed field handed an ndarray of every dtype class (booleans, narrow / unsigned / big-endian integers, half / single
+    # precision, big-endian floats, object strings): the emitted JSON must validate, Molecules must survive their dictionary
+    try:
+        probes = dtype_probe_recipes()
+    except Exception as e:
+        probes = []
+        corr.errors.append(f"dtype probe: the models' field tables could not be read ({type(e).__name__}: {e})"[:300])
+    for owner, alias, dt, cands in probes:
+        done = False
+        for rc in cands:
+            try:
+                probs, info = oracle(rc)
+            except Refused:
+                continue
+            except Exception as e:
+                probs, info = [{"what": f"unexpected {type(e).__name__}: {e}"[:300], "observed": None}], None
+            if info is not None and f'"{alias}"' not in info["text"]:
+                continue              # the field was dropped on the way (protocols): not a probe of it
+            done = True
+            corr.count("dtype-probe")
+            corr.hit("dtype_probe_" + dt)
+            for p_ in probs:
+                corr.failures.append({"stream": "dtype-probe", "case": {"recipe": rc}, "what": p_["what"], "observed": p_["observed"]})
+            if rc["model"] != "Molecule":
+                break
+        if not done:
+            corr.hit("dtype_probe_refused")
+            corr.hit(f"dtype_probe_refused_{owner}.{alias}")
     for rc in MUST_REJECT:
         corr.count("must-reject")
         try:
@@ -1785,6 +2325,18 @@ def correspond(ctx):
         fterms.append(f"({lunit(mu)}, {lunit(u)}, {copt(None if iu is None else Fraction(iu), cq)}, {cq(conv)}, {cq(seen)})")
         fmeta.append({"units": mu, "requested": u, "iu2au": iu, "dtype": dt, "observed_factor": float(seen)})
     tterms, tmeta, dterms, dmeta = trans_cases(ctx, corr)
+    gterms, gmeta = [], []
+    for term, meta in geom_init_cases(rng, 600 if ctx.thorough else 150):
+        corr.count("geom-init")
+        corr.hit("geom_init_" + ("ambiguous" if meta["seen"] is None else "kept" if meta["seen"] == "GKeep" else "float_prep"))
+        if term is None and not meta["unexplained"]:
+            continue            # (kept and rounded coincide, or two numbers of decimals give the same coordinates: nothing to compare)
+        if term is None:
+            corr.failures.append({"stream": "geom-init", "case": meta, "what": "Molecule.__init__ stores coordinates that are neither the ones given "
+                                  "nor float_prep of them at one number of decimals", "observed": meta["stored"]})
+            continue
+        gterms.append(term)
+        gmeta.append(meta)
     ctx.log(f"{built} instances built ({len(inst_terms)} distinct to the model), {len(json_terms)} mutated documents, "
             f"{len(split_terms)} split cases, {len(fterms)} factor cases, {len(tterms)} whole-record translations, "
             f"{len(dterms)} damaged schema dictionaries")
@@ -1822,6 +2374,17 @@ def correspond(ctx):
         parts, _ = coqrun.eval_terms("C09x", REQ_TRANS, "", [f"from_schema_full false (fst {dterms[b]})"])
         corr.disagreements.append({"stream": "damaged-schema", "case": dmeta[b], "impl": impl_from_schema(dmeta[b]["schema"])[:1] + (str(impl_from_schema(dmeta[b]["schema"])[1])[:600],),
                                    "model": ((parts or ["?"])[0])[:1500]})
+    xterms, xmeta = _STATE.get("xterms") or [], _STATE.get("xmeta") or []
+    bad, errors = run_cases("C09e", "check_extras", xterms, 500, "extras * string * extras * extras", req=REQ_EXTRAS)
+    corr.errors.extend(f"extras shard {k}: {e}" for k, e in errors)
+    for b in bad[:6]:
+        corr.disagreements.append({"stream": "extras", "case": xmeta[b], "impl": xterms[b][:600],
+                                   "model": "to_schema_extras / from_schema_extras (Model/SchemaExtras.v) say otherwise"})
+    bad, errors = run_cases("C09g", "check_init", gterms, 500, "bool * option bool * bool * bool * option Z * geom_action", req=REQ_INIT)
+    corr.errors.extend(f"geom-init shard {k}: {e}" for k, e in errors)
+    for b in bad[:6]:
+        corr.disagreements.append({"stream": "geom-init", "case": gmeta[b], "impl": gmeta[b]["seen"],
+                                   "model": "init_geometry_action (Gen/MolGeomInit.v) says otherwise"})
     bad, errors = run_cases("C09f", "check_factor", fterms, 500, "lunit * lunit * option Q * Q * Q")
     corr.errors.extend(f"factor shard {k}: {e}" for k, e in errors)
     for b in bad[:6]:
@@ -1847,6 +2410,71 @@ def scalar_probe_recipes(fields):
             kw = {"validate": False, **he}
             kw[alias] = val
             out.append({"model": "Molecule", "kwargs": kw})
+    return out
+
+
+PROBE_DTYPES = {"f": ["bool", "int8", "uint16", "int64", "float16", "float32", ">f8"], "i": ["bool", "int8", "uint8", ">i2", "int64", "float64"],
+                "b": ["bool", "uint8", "int64", "float32"], "U": ["<U8", ">U8", "O"]}
+PROBE_SHAPES = [[3], [1], [1, 3], [3, 3], [1, 1], [9]]
+
+
+def _probe_data(kind, dt, n, alias):
+    if kind == "U":
+        return ["He" if alias == "symbols" else "a"] * n
+    if dt == "bool":
+        return [i % 2 == 0 for i in range(n)]
+    if kind == "b":
+        return [float((i + 1) % 2) if dt.startswith("float") else (i + 1) % 2 for i in range(n)]
+    if alias in ("atomic_numbers", "mass_numbers"):
+        v = {"atomic_numbers": 2, "mass_numbers": 4}[alias]
+        return [float(v) if dt.startswith("float") else v] * n
+    if alias == "fragments":
+        return list(range(n))
+    vals = [(i % 3) for i in range(n)]
+    return [float(v) + (0.5 if "f" in dt and i == 1 else 0.0) for i, v in enumerate(vals)] if ("f" in dt and dt != "bool") else vals
+
+
+def dtype_probe_recipes():
+    """for every array-typed field of the published models (read from the models' field tables at run time) and every class of
+    ndarray dtype: candidate minimal instances (one per plausible shape) that hand the field such an array"""
+    import qcelemental.models as qm
+    from qcelemental.models.results import WavefunctionProperties
+    from qcelemental.models.types import TypedArray
+    he = {"symbols": ["He"], "geometry": [0, 0, 0]}
+    out = []
+
+    def fields_of(cls):
+        for f in cls.__fields__.values():
+            for c in [f] + list(f.sub_fields or []):
+                if isinstance(c.type_, type) and issubclass(c.type_, TypedArray):
+                    yield f.alias, (np.dtype(c.type_._dtype).kind if c.type_._dtype is not str else "U"), c.shape
+                    break
+    for cls in (qm.AtomicResultProperties, WavefunctionProperties, qm.Molecule, qm.AtomicResult):
+        for alias, kind, fshape in fields_of(cls):
+            for dt in PROBE_DTYPES.get(kind, []):
+                cands = []
+                for shape in (PROBE_SHAPES if cls is not qm.Molecule else ([[3], [1, 3]] if alias == "geometry" else [[1]])):
+                    n = int(np.prod(shape))
+                    val = nd(dt, _probe_data(kind, dt, n, alias), shape, "F" if len(shape) == 2 else "C")
+                    if cls is qm.AtomicResultProperties:
+                        cands.append({"model": "AtomicResultProperties", "kwargs": {"calcinfo_natom": 1, alias: val}})
+                    elif cls is WavefunctionProperties:
+                        cands.append({"model": "AtomicResult", "kwargs": {
+                            "molecule": he, "driver": "energy", "model": {"method": "hf"}, "protocols": {"wavefunction": "all"},
+                            "provenance": {"creator": "x"}, "properties": {}, "return_result": 1.0, "success": True,
+                            "wavefunction": {"basis": _basis([SHELL0]), "restricted": alias.endswith("_a"), alias: val}}})
+                    elif cls is qm.AtomicResult:
+                        cands.append({"model": "AtomicResult", "kwargs": {
+                            "molecule": he, "driver": "gradient", "model": {"method": "hf"}, "provenance": {"creator": "x"}, "properties": {},
+                            alias: val, "success": True}})
+                    else:
+                        for validate in (None, False):
+                            kw = {"symbols": ["He"], "geometry": [0.0, 0.0, 0.0]}
+                            if validate is False:
+                                kw["validate"] = False
+                            kw[alias] = [nd(dt, _probe_data(kind, dt, 1, alias), [1], "C")] if fshape == 2 else val
+                            cands.append({"model": "Molecule", "kwargs": kw})
+                out.append((cls.__name__, alias, dt, cands))
     return out
 
 
@@ -1899,9 +2527,17 @@ def search(ctx, corr, reasons):
     if found:
         return found
     rng = ctx.rng
+    cover = {}
     for i in range(6000 if ctx.thorough else 1500):
         name = tr.SIX[i % 6]
-        rc = gen_recipe(rng, name)
+        rc = retype_arrays(rng, gen_recipe(rng, name), cover)
+        if i % 6 == 0:
+            arrays, exports = gen_molrec_arrays(rng), gen_exports(rng)
+            try:
+                for p in molrec_history_oracle(arrays, exports):
+                    found.append({"stream": "search", "case": {"molrec": arrays, "exports": exports}, "what": p["what"], "observed": p["observed"]})
+            except Exception:
+                pass
         try:
             probs, _ = oracle(rc)
         except Refused:
@@ -1938,6 +2574,15 @@ def replay(ctx, rp):
             return {"recipe": case["recipe"], "emitted": info["text"][:2000], "problems": probs, "fails": True,
                     "note": "this input must be refused"}
         return {"recipe": case["recipe"], "emitted": info["text"][:2000], "problems": probs, "fails": bool(probs)}
+    if "init" in case:
+        got = geom_init_replay(case)
+        return {"init": case["init"], "seen_now": got[0], "seen_then": case.get("seen"), "fails": got[1]}
+    if "molrec" in case and "exports" in case:
+        try:
+            probs = molrec_history_oracle(case["molrec"], case["exports"])
+        except Refused as e:
+            return {"fails": False, "note": f"from_arrays refuses this input: {e}"[:300]}
+        return {"molrec": case["molrec"], "exports": case["exports"], "problems": probs, "fails": bool(probs)}
     if "molrec" in case:
         try:
             probs, _ = molrec_oracle(case["molrec"])
@@ -2066,9 +2711,13 @@ TRUSTED = [
     "hand-written Gallina models: Common/JsonS.v (JSON values, draft-04 validator for the keyword subset in use, relation Valid), "
     "Model/QCSchema.v (pydantic.v1 field descriptors, values, emission with unset/None dropped and ndarrays flattened, compat), "
     "Model/SchemaMol.v (np.split/cumsum index core and unit factor of to_schema/from_schema), Model/SchemaTrans.v (whole-record to_schema / "
-    "from_schema incl. contiguize_from_fragment_pattern(throw_reorder=True), on C04's Model/MolRec.v molrec and from_arrays)",
+    "from_schema incl. contiguize_from_fragment_pattern(throw_reorder=True), on C04's Model/MolRec.v molrec and from_arrays), "
+    "Model/GeomInit.v (stored / hashed geometry over the generated branch; float_prep and _orient_molecule_internal are parameters)",
     "translator harness/translate/c09_schema.py (Model.schema() and __fields__ read at run time from the imported models; to_schema.py and "
-    "from_schema.py ASTs -> unit branch, key tables, headers, recognition rules; from_arrays defaults from its signature; fail closed)",
+    "from_schema.py ASTs -> unit branch, key tables, headers, recognition rules; from_arrays defaults from its signature; models/molecule.py "
+    "AST -> geometry branch of Molecule.__init__, validate default, GEOMETRY_NOISE, shape of float_prep / get_hash / __eq__; name / comment "
+    "statements of to_schema, from_schema, from_arrays, validate_and_fill_units; models/types.py TypedArray.validate pinned to "
+    "np.asarray(v, dtype=field dtype); fail closed)",
     "pydantic.v1 validation ('a field declared with descriptor D holds an inhabitant of D') and json/jsonschema are modelled, not verified: "
     "checked on every generated instance (inhabitsb, emitted text == modelled emission, Gallina verdict == jsonschema verdict)",
     "regular expressions: only anchored literal alternations, read with ECMA semantics ('$' matches at the very end only)",
@@ -2078,6 +2727,8 @@ TRUSTED = [
 ]
 ASSUMPTIONS = [
     "strings are latin-1, floats finite (NaN/inf are not JSON), dictionary keys are str",
+    "clause C theorems: float_prep is idempotent at GEOMETRY_NOISE decimals (hypothesis of C09_revalidated_same_hashed_geometry; proved for C11's "
+    "model of float_prep as C11_prep_idempotent); pydantic hands Molecule.__init__ the coordinates it was given (field validation only reshapes)",
     "Inh false: ndarray-typed fields hold arrays of at least one dimension (0-d arrays are the finding C09-scalar-array-0d: after e040dda only WavefunctionProperties.localized_fock_a/_b and Molecule(validate=False).atomic_numbers/mass_numbers/atom_labels)",
     "index core: fragment_separators are non-decreasing and within 0..nat (wf_seps); whole-record round trip: the molrec was accepted by from_arrays "
     "with tooclose / mtol / zero_ghost_fragments at from_arrays' defaults (the settings from_schema uses), is stored in Bohr, has at least one atom "
@@ -2089,7 +2740,7 @@ TECHNIQUE = ("Coq proof: generic soundness of a descriptor-vs-schema checker (in
              "spec; differential correspondence against pydantic/jsonschema; oracle on the implementation")
 DESIGN_REF = "DESIGN.md §6 C09"
 LEVEL_TEXT = (
-    "Machine-checked (Coq 8.16.1), 40 theorems, all closed. CONFORMANCE. Generic: C09_compatible_sound (if compat z accepts descriptor D against "
+    "Machine-checked (Coq 8.16.1), 48 theorems, all closed. CONFORMANCE. Generic: C09_compatible_sound (if compat z accepts descriptor D against "
     "schema S then the JSON emitted for EVERY inhabitant of D is Valid for S; z says whether plain ndarray fields may hold 0-d arrays; induction on "
     "fuel, unbounded over instances), C09_compatible_never_rejected, C09_validator_sound/_complete (the executable draft-04 validator decides "
     "the relation Valid), C09_inhabits_checker_sound, C09_strip_unique_weakens (removing uniqueItems only weakens a schema), "
@@ -2112,7 +2763,16 @@ LEVEL_TEXT = (
     "into the same from_arrays argument, nothing is read that is not written, required keys are written unconditionally), "
     "C09_to_schema_exports_bohr, C09_to_schema_refuses_other_units (ValidationError), C09_from_schema_reads_bohr. Index+unit core (any units): "
     "C09_fragments_cover, C09_separators_roundtrip, C09_fragments_roundtrip, C09_exported_geometry_in_bohr (unit branch from the AST), "
-    "C09_schema_roundtrip_core. Tie: Gen/Schemas.v, Gen/FieldTypes.v (incl. the shape-guard classification of validators), Gen/ToSchemaGen.v, "
+    "C09_schema_roundtrip_core. Name and comment: C09_name_comment_roundtrip (the name - the formula for an unnamed molecule - and the comment "
+    "come back exactly), C09_named_molrec_extras_roundtrip, C09_name_comment_second_translation, C09_comment_exported_iff_present, over "
+    "Gen/SchemaExtras.v (ASTs of to_schema, from_schema, from_arrays, validate_and_fill_units; formula_generator a parameter), stream extras. "
+    "REBUILT FROM ITS OWN DICTIONARY, geometry (float_prep and the orientation routine are parameters): "
+    "C09_rebuilt_keeps_geometry (a dictionary that says validated=True is stored coordinate for coordinate, whatever truncation the original "
+    "was stored with), C09_rebuilt_same_hashed_geometry, C09_revalidated_same_hashed_geometry (re-validated at the default truncation, get_hash "
+    "is fed the same coordinates, given float_prep idempotent at GEOMETRY_NOISE), C09_unvalidated_keeps_geometry; the branch of "
+    "Molecule.__init__, the validate default and the two noise constants are Gen/MolGeomInit.v (AST of __init__, float_prep, get_hash, __eq__, "
+    "fail closed), tied by stream geom-init (what the implementation is seen to do to 17-digit coordinates over validate x validated x "
+    "_geometry_prep x geometry_noise). Tie: Gen/Schemas.v, Gen/FieldTypes.v (incl. the shape-guard classification of validators), Gen/ToSchemaGen.v, "
     "Gen/SchemaKeys.v regenerated fail-closed; differential execution on instances of all six "
     "models (inhabits descriptor with 0-d only at unguarded fields, modelled emission == emitted text, Gallina verdict == jsonschema verdict "
     "with and without uniqueItems, duplicate-free <-> fully valid), mutated documents, a scalar probe of every ndarray field, molrecs from "
@@ -2120,15 +2780,22 @@ LEVEL_TEXT = (
     "to_schema x {1,2} x np_out and from_schema (stream trans), damaged schema dictionaries through from_schema with every error class "
     "(ValidationError, NotAnElementError, KeyError; stream damaged-schema, per-damage and per-outcome hit counts), np.split/cumsum "
     "core, unit factor; oracle on the implementation (jsonschema; full-field round trips v1/v2 x np_out; re-validation keeps the hash; input "
-    "kept; Bohr).")
+    "kept; Bohr; molecules handed back by scramble()/align()/orient_molecule(), finer geometry_noise, validated=True payloads with unrounded "
+    "coordinates and validate=False molecules rebuilt from dict() / dict(encoding='json') / JSON; ndarray inputs of every dtype class (bool, "
+    "narrow/unsigned/big-endian integers, half/single precision, big-endian floats, object strings, Fortran-ordered, strided) for every "
+    "array-typed field, generated and as a per-field probe; several exports (dtype x np_out x copy) from one live molrec each judged against "
+    "the original coordinates in Bohr and against a fresh record).")
 LEVEL_NOTE = (
     "Clause map: (A) emitted JSON of every valid instance validates - theorems for all six models (three full, three exactly 'iff "
     "duplicate-free': known findings C09-uniqueitems, -ecp; 0-d arrays: known finding C09-scalar-array-0d); 'instances inhabit their "
     "descriptors' and 'emitted text = emit' are correspondence. (B) schema round trip v1/v2 - C09_schema_roundtrip_full + "
     "_second_translation for Bohr molrecs and C09_schema_roundtrip_angstrom for Angstrom molrecs at the whole-record level "
-    "(name/comment/provenance not carried; np_out is a representation choice, oracle only; the model computes in exact rationals, the "
+    "(name/comment: C09_name_comment_roundtrip etc. on a separate two-field record; provenance not carried - from_schema stamps its own; "
+    "np_out is a representation choice, oracle only; the model computes in exact rationals, the "
     "binary64 rounding of geom*factor is outside it); negative separators refuted (known finding C09-negative-separators). (C) Molecule rebuilt from its own dict equal with equal "
-    "hash - oracle on the implementation only (hashing is C11). (D) geometry exported in Bohr - theorems (unit branch and guard from the AST). "
+    "hash - theorems for the geometry (the stored coordinates are kept; re-validation feeds get_hash the same coordinates) with float_prep "
+    "as a parameter whose idempotence is assumed there (it is C11_prep_idempotent for C11's model of float_prep) and the orient=True branch "
+    "tied by the AST only; the other fields and the digest are oracle on the implementation only (hashing is C11). (D) geometry exported in Bohr - theorems (unit branch and guard from the AST). "
     "Trusted: Coq kernel + vm_compute; the hand-written models of JSON Schema draft-04 (keyword subset; patterns = anchored literal "
     "alternations with ECMA '$'), of pydantic.v1 emission (set fields, None dropped, ndarray flattened), of to_schema/from_schema/contiguize "
     "(record level) and C04's from_arrays model; the translator. Pydantic validation itself is modelled as 'instances inhabit their field "
